@@ -173,7 +173,8 @@ def fp_equal(a, b, path=""):
         if a.shape != b.shape:
             return False, path + ":shape %s != %s" % (a.shape, b.shape)
         if a.dtype.kind in "fc" or b.dtype.kind in "fc":
-            if a.dtype != b.dtype:
+            # equal values in float32 and float64 are equal values; the kind must agree
+            if a.dtype.kind != b.dtype.kind:
                 return False, path + ":dtype %s != %s" % (a.dtype, b.dtype)
             ok = np.allclose(a, b, rtol=FLOAT_RTOL, atol=FLOAT_ATOL, equal_nan=True)
             return bool(ok), ("" if ok else path + ":values differ (max abs %.3g)" % float(np.nanmax(np.abs(a - b))) if a.size else "")
@@ -202,8 +203,12 @@ def _fp_dataarray(da):
     return FP("da", [tuple(da.dims), vals, attrs])
 
 
+# wall-clock content of an export (the Exodus encoder stamps date and time)
+VOLATILE_VARS = {"qa_records"}
+
+
 def _fp_dataset(ds, skip=()):
-    names = sorted(str(n) for n in ds.variables if n not in skip)
+    names = sorted(str(n) for n in ds.variables if n not in skip and str(n) not in VOLATILE_VARS)
     return FP("ds", [tuple(names)] + [_fp_dataarray(ds[n]) for n in names])
 
 
